@@ -10,6 +10,17 @@ let mask_of_cfg (m : Model.z list) : int =
 let check (b : block) : verdict list =
   match impl b "panic" with
   | Some msg -> [Viol ("load:panic", "loading a well-formed file panicked: " ^ String.concat " " msg)]
+  | None when find b "bigcircuit" <> None ->
+    (* corpus-size vector (not dumped): only the oracle applies *)
+    bump "big_circuits_oracle_only";
+    let impl_rc = match impl b "rc" with Some [r] -> r | _ -> "?" in
+    let n = int_n b in
+    (match find b "src_count", impl b "nvars" with
+     | Some [sc], _ when sc <> impl_rc ->
+       [Viol ("count:wrong-total", Printf.sprintf "reported count %s, source formula has %s models" impl_rc sc)]
+     | _, Some [nv] when int_of_string nv <> n ->
+       [Viol ("load:feature-count", Printf.sprintf "loaded with n=%d but number_of_variables=%s" n nv)]
+     | _ -> [Ok])
   | None ->
     let n = int_n b in
     let c = b.circuit in
